@@ -447,7 +447,9 @@ class Init:
 
 # ---- MemoryIO: the allocation itself (parent of every view) -------------------------------------------
 MC = TRec("OpaqueMC")
-MEMIO = TRec("MemoryIO", _freed=TBool(), _x=TInt(0, 255), _y=TInt(0, 255), _start_address=TInt(), _machine_controller=MC)
+# (the root view of an allocation can be CLOSED - e.g. by leaving its `with` block - without the allocation being freed: views sliced
+#  from it go on transferring through it, so its transfer methods and free() must look at `_freed` only)
+MEMIO = TRec("MemoryIO", _freed=TBool(), closed=TBool(), _x=TInt(0, 255), _y=TInt(0, 255), _start_address=TInt(), _machine_controller=MC)
 
 
 def _mc_read(E, obj, args, kwargs, st, node):
@@ -497,6 +499,7 @@ def _run_memio(self, call):
     mc = _MC()
     m = MemoryIO(mc, self._x, self._y, self._start_address, self._start_address + 16)
     m._freed = self._freed
+    m.closed = bool(getattr(self, "closed", False))
     try:
         res, raised = call(m), None
     except Exception as e:
